@@ -143,9 +143,7 @@ def _check_main(ctx, res) -> None:
     # ---- R08.4 numbers
     folder = fold.get(ctx)
     src = idx.need_class(SOURCE)
-    npat_m = src.methods.get("_get_number_pattern")
-    if not npat_m:
-        raise AnalysisError("anchor=_Source._get_number_pattern not found")
+    npat_m = idx.need_func(SOURCE + "._get_number_pattern")  # a method, or moved to module level
     try:
         npat = folder.call_function(npat_m.qualname)
     except fold.Unfoldable as e:
